@@ -14,6 +14,68 @@ REPO = os.environ.get('VERIF_REPO', '/repo')
 CACHE = os.path.join(V, '.cache')
 KTARGET = os.path.join(CACHE, 'kani-target')
 
+
+class PrivateTarget:
+    """A cargo target directory private to this process.
+
+    cargo's build lock covers the compilation only; kani-driver reads the goto binaries afterwards, and the test binary of a
+    playback runs after the lock is released.  Two checks running at the same time on DIFFERENT source trees (the unchanged tree
+    and a changed one, or two changed ones) must therefore not share a target directory.  The dependency build is shared through a
+    base directory that is written only while holding an exclusive lock (first use), and copied (under a shared lock) otherwise."""
+
+    def __init__(self, base_name):
+        self.base = os.path.join(CACHE, base_name)
+        self.lock = os.path.join(CACHE, base_name + '.lock')
+        self.path = None
+        self.using_base = False
+        self.fd = None
+
+    def __enter__(self):
+        import fcntl, glob, uuid
+        os.makedirs(CACHE, exist_ok=True)
+        # stale private copies of processes that no longer exist
+        for d in glob.glob(self.base + '-p*-*'):
+            m = re.search(r'-p(\d+)-', os.path.basename(d))
+            if m and not os.path.exists('/proc/%s' % m.group(1)):
+                shutil.rmtree(d, ignore_errors=True)
+        self.fd = open(self.lock, 'w')
+        ready = os.path.join(self.base, '.base-ready')
+        fcntl.flock(self.fd, fcntl.LOCK_SH)
+        if os.path.exists(ready):
+            self.path = '%s-p%d-%s' % (self.base, os.getpid(), uuid.uuid4().hex[:8])
+            # the crate's own artefacts are rebuilt anyway (and are the bulk of the directory): copy the dependency build only
+            def ignore(d, names):
+                return [n for n in names if n.startswith('hpke') or n.startswith('libhpke')]
+            shutil.copytree(self.base, self.path, ignore=ignore, symlinks=True)
+            fcntl.flock(self.fd, fcntl.LOCK_UN)
+            return self
+        # first use: build into the base itself, alone
+        fcntl.flock(self.fd, fcntl.LOCK_UN)
+        fcntl.flock(self.fd, fcntl.LOCK_EX)
+        if os.path.exists(ready):
+            fcntl.flock(self.fd, fcntl.LOCK_UN)
+            self.fd.close()
+            return self.__enter__()
+        self.path = self.base
+        self.using_base = True
+        return self
+
+    def __exit__(self, *a):
+        import fcntl
+        try:
+            if self.using_base:
+                os.makedirs(self.base, exist_ok=True)
+                open(os.path.join(self.base, '.base-ready'), 'w').write('1')
+            elif self.path:
+                shutil.rmtree(self.path, ignore_errors=True)
+        finally:
+            try:
+                fcntl.flock(self.fd, fcntl.LOCK_UN)
+                self.fd.close()
+            except Exception:
+                pass
+        return False
+
 # fragment file -> source file it is appended to
 FRAGMENTS = {
     'util.rs': 'util.rs',
@@ -35,7 +97,10 @@ KANI_CONTRACTS = [
 
 
 def H(name, props, tier='quick', bound=None, timeout=600, features='', should_panic=False, extra=()):
-    return {'name': name, 'props': props, 'tier': tier, 'bound': bound, 'timeout': timeout, 'features': features, 'extra': list(extra)}
+    # harnesses named *_panics are #[kani::should_panic] (passes when SOME path panics) and end in the sentinel
+    # `kani::cover!(true, "VERIF_RETURNED")`, which must be unreachable: then EVERY path panics
+    return {'name': name, 'props': props, 'tier': tier, 'bound': bound, 'timeout': timeout, 'features': features, 'extra': list(extra),
+            'must_not_return': name.endswith('_panics')}
 
 # name must be unique; `props` = properties whose check runs the harness
 ALL = [
@@ -43,7 +108,7 @@ ALL = [
     H('write_u64_be_full', ['C02', 'C04', 'C05']),
     H('write_u64_be_wrong_len_panics', ['C13'], tier='thorough'),
     H('suite_ids_table_x25519', ['C02', 'C07', 'C18']),
-    H('kem_ids_table', ['C02', 'C03'], features='p384,p521'),
+    H('kem_ids_table', ['C02', 'C03', 'C12'], features='p384,p521'),
     H('suite_ids_table_p256', ['C02', 'C07']),
     H('suite_ids_table_p384', ['C02', 'C07'], tier='thorough', features='p384,p521'),
     H('suite_ids_table_p521', ['C02', 'C07'], tier='thorough', features='p384,p521'),
@@ -54,14 +119,18 @@ ALL = [
     H('mix_nonce_full_aes128', ['C04', 'C02', 'C05']),
     H('mix_nonce_full_aes256', ['C04'], tier='thorough'),
     H('mix_nonce_full_chacha', ['C04'], tier='thorough'),
-    H('seal_state_machine_model', ['C04'], tier='thorough'),
-    H('open_state_machine_model', ['C05'], tier='thorough'),
+    H('seal_state_machine_model', ['C04', 'C06'], tier='thorough'),
+    H('open_state_machine_model', ['C05', 'C06'], tier='thorough'),
     H('seal_alloc_bounded', ['C14', 'C01', 'C13'], bound='plaintext length <= 4, model AEAD'),
-    H('write_exact_tag', ['C12']),
+    H('seal_forms_agree_bounded', ['C14'], bound='plaintext length <= 4, model AEAD'),
+    H('open_forms_agree_bounded', ['C14'], bound='ciphertext||tag length 16..=20, model AEAD'),
+    H('write_exact_tag_copies', ['C12']),
     H('aead_tag_from_bytes_full', ['C12', 'C06', 'C13']),
     H('open_alloc_model_bounded', ['C05', 'C06', 'C14', 'C13'], tier='thorough', bound='ciphertext length <= 20, model AEAD'),
     H('psk_bundle_and_modes_bounded', ['C15'], tier='thorough', bound='psk, psk_id length <= 3'),
-    H('write_exact_tag_wrong_len_panics', ['C12'], tier='thorough'),
+    H('write_exact_tag_wrong_len_panics', ['C12']),
+    H('write_exact_tag_exportonly_wrong_len_panics', ['C12']),
+    H('export_limit_and_history', ['C11', 'C18', 'C13']),
     H('export_only_seal_panics', ['C11'], tier='thorough', timeout=1500),
     H('export_only_open_panics', ['C11'], tier='thorough', timeout=1500),
     H('drop_wipes_key_aes128', ['C16']),
@@ -72,27 +141,35 @@ ALL = [
     H('drop_wipes_nonce_chacha', ['C16'], tier='thorough'),
     H('drop_wipes_ctx_fields', ['C16']),
     H('drop_wipes_nonce_exportonly', ['C16']),
-    H('drop_wipes_shared_secret', ['C16']),
+    H('drop_wipes_shared_secret_x25519', ['C16']),
     H('drop_wipes_shared_secret_p521', ['C16'], features='p384,p521'),
     H('drop_wipes_shared_secret_p384', ['C16'], tier='thorough', features='p384,p521'),
     H('drop_wipes_exporter_sha256', ['C16']),
     H('drop_wipes_exporter_sha384', ['C16'], tier='thorough'),
     H('drop_wipes_exporter_sha512', ['C16'], tier='thorough'),
-    H('single_shot_open_equiv_model', ['C14'], tier='thorough', timeout=1500),
+    H('single_shot_open_equiv_model', ['C14', 'C06', 'C18'], tier='thorough', timeout=1500),
     H('single_shot_seal_equiv_model', ['C14'], tier='thorough', timeout=1500),
     H('gen_keypair_depends_only_on_rng', ['C18', 'C03', 'C02']),
     H('aead_ids_and_sizes_table', ['C02', 'C12']),
     H('x25519_dh_zero_check', ['C10', 'C03']),
-    H('write_exact_x25519', ['C12']),
+    H('write_exact_x25519_copies', ['C12']),
     H('x25519_from_bytes_full', ['C12', 'C13', 'C10']),
     H('x25519_decap_zero_dh_rejected', ['C10', 'C13'], timeout=1500),
     H('x25519_encap_zero_dh_rejected', ['C10', 'C13'], timeout=1500),
     H('x25519_dhkem_kdf_inputs', ['C03', 'C07', 'C08', 'C02'], tier='thorough', timeout=1500),
-    H('write_exact_x25519_wrong_len_panics', ['C12'], tier='thorough'),
-    H('nist_sk_from_bytes_p256', ['C09', 'C12'], timeout=1500),
+    H('write_exact_x25519_wrong_len_panics', ['C12']),
+    H('nist_sk_from_bytes_p256', ['C09', 'C12', 'C13'], timeout=1500),
     H('nist_sk_from_bytes_p384', ['C09', 'C12'], features='p384,p521', timeout=900),
     H('nist_sk_from_bytes_p521', ['C09'], features='p384,p521', timeout=900),
+    H('nist_derive_keypair_rejection_p256', ['C02', 'C03'], timeout=1500),
+    H('nist_derive_keypair_rejection_p384', ['C02', 'C03'], tier='thorough', features='p384,p521', timeout=1500),
+    H('nist_derive_keypair_rejection_p521', ['C02', 'C03'], features='p384,p521', timeout=1500),
 ]
+
+# `cargo kani --harness NAME` selects every harness whose path CONTAINS NAME: names must not contain one another
+for _a in ALL:
+    for _b in ALL:
+        assert _a is _b or _a['name'] not in _b['name'], 'harness name %s is a substring of %s' % (_a['name'], _b['name'])
 
 
 # Verus obligations that have a Kani twin on the same real function: when the Verus obligation fails, the twin
@@ -137,7 +214,8 @@ def src_hash():
     return h.hexdigest()[:24]
 
 
-def build_scratch(out):
+def build_scratch(out, only=None):
+    """only = set of fragment file names to append (default: all)"""
     os.makedirs(out, exist_ok=True)
     for f in ('Cargo.toml', 'Cargo.lock'):
         shutil.copy(os.path.join(REPO, f), os.path.join(out, f))
@@ -149,6 +227,8 @@ def build_scratch(out):
     os.makedirs(os.path.join(out, '.cargo'), exist_ok=True)
     open(os.path.join(out, '.cargo', 'config.toml'), 'w').write('[net]\noffline = true\n')
     for rel, rx, attr in KANI_CONTRACTS:
+        if only is not None and os.path.basename(rel) not in only:
+            continue
         p = os.path.join(out, 'src', rel)
         txt = open(p).read()
         m = re.search(rx, txt, re.M)
@@ -157,7 +237,7 @@ def build_scratch(out):
         open(p, 'w').write(txt[:m.start()] + attr + txt[m.start():])
     for frag, rel in FRAGMENTS.items():
         fp = os.path.join(V, 'kani', frag)
-        if not os.path.exists(fp):
+        if not os.path.exists(fp) or (only is not None and frag not in only):
             continue
         p = os.path.join(out, 'src', rel)
         if not os.path.exists(p):
@@ -187,8 +267,8 @@ def run_group(cmd, cwd, env, timeout):
         return (o or '') + '\n' + (e or '') + '\nTIMEOUT after %ds' % timeout, 124
 
 
-def run_one(scratch, h):
-    cmd = ['cargo', 'kani', '--target-dir', KTARGET, '-Z', 'stubbing', '-Z', 'function-contracts',
+def run_one(scratch, h, ktarget):
+    cmd = ['cargo', 'kani', '--target-dir', ktarget, '-Z', 'stubbing', '-Z', 'function-contracts',
            '--harness', h['name'], '--output-format', 'terse']
     if h['features']:
         cmd += ['--features', h['features']]
@@ -200,13 +280,27 @@ def run_one(scratch, h):
     res = {'name': h['name'], 'time_s': round(dt, 1), 'bound': h['bound'], 'complete': h['bound'] is None, 'rc': rc}
     if 'VERIFICATION:- SUCCESSFUL' in out and rc == 0:
         res['ok'] = True
+        m = re.search(r'\*\* (\d+) of (\d+) cover properties satisfied', out)
+        if h.get('must_not_return'):
+            if not m or 'encountered one or more panics as expected' not in out:
+                res['ok'] = False; res['undecided'] = True; res['detail'] = 'must-panic harness without sentinel cover or without should_panic'
+            elif int(m.group(1)) != 0:
+                res['ok'] = False
+                res['detail'] = 'the call RETURNED without panicking for some input (sentinel cover VERIF_RETURNED is reachable)'
+                res['log'] = out[-6000:]
         # vacuity: a cover that is unsatisfiable means the assumptions exclude everything
-        if re.search(r'\*\* 0 of \d+ cover properties satisfied', out) and 'should_panic' not in out:
+        elif m and int(m.group(1)) == 0:
             res['ok'] = False; res['undecided'] = True; res['detail'] = 'vacuous harness: no cover property satisfiable'
     elif 'VERIFICATION:- FAILED' in out:
         res['ok'] = False
         fails = re.findall(r'Failed Checks: ([^\n]*)', out)
         res['detail'] = '; '.join(fails[:6]) or 'verification failed'
+        if fails and all(f.startswith('VERIF_UNDECIDED') for f in fails):
+            # the harness itself says that its obligation no longer covers the changed code
+            res['undecided'] = True
+        if fails and all('is not currently supported by Kani' in f for f in fails):
+            # the (changed) code reaches a construct Kani cannot model, e.g. inline asm: no verdict either way
+            res['undecided'] = True
         if re.search(r'unwinding assertion', out):
             res['undecided'] = True
             res['detail'] = 'unwinding assertion failed (bound too small): ' + res['detail']
@@ -218,14 +312,14 @@ def run_one(scratch, h):
     return res
 
 
-def playback(h):
+def playback(h, ktarget, only=None):
     """counterexample replay: Kani's concrete values for the failed check are written as a unit test into the
     harness module (`--concrete-playback=inplace`) and executed NATIVELY against the real code"""
     sc = tempfile.mkdtemp(prefix='hpke_kplay_')
     env = dict(os.environ, CARGO_NET_OFFLINE='true')
     try:
-        build_scratch(sc)
-        cmd = ['cargo', 'kani', '--target-dir', KTARGET, '-Z', 'stubbing', '-Z', 'function-contracts', '-Z', 'concrete-playback',
+        build_scratch(sc, only=only)
+        cmd = ['cargo', 'kani', '--target-dir', ktarget, '-Z', 'stubbing', '-Z', 'function-contracts', '-Z', 'concrete-playback',
                '--concrete-playback=inplace', '--harness', h['name'], '--output-format', 'terse']
         if h['features']:
             cmd += ['--features', h['features']]
@@ -251,12 +345,13 @@ def playback(h):
                     tests.append((m.group(1), m.group(0)))
         if not tests:
             return None
-        env2 = dict(env, CARGO_TARGET_DIR=os.path.join(CACHE, 'kani-playback-target'))
         cmd = ['cargo', 'kani', 'playback', '-Z', 'concrete-playback']
         if h['features']:
             cmd += ['--features', h['features']]
         cmd += ['--', tests[0][0]]
-        p = subprocess.run(cmd, cwd=sc, capture_output=True, text=True, timeout=900, env=env2)
+        with PrivateTarget('kani-playback-target') as ppt:
+            env2 = dict(env, CARGO_TARGET_DIR=ppt.path)
+            p = subprocess.run(cmd, cwd=sc, capture_output=True, text=True, timeout=900, env=env2)
         out = p.stdout + p.stderr
         lines = [l for l in out.splitlines() if re.search(r'^test |panicked at|^assertion|^  left|^ right|test result|^error\[', l)]
         native = 'FAILS natively (counterexample confirmed on the real code)' if 'test result: FAILED' in out else \
@@ -266,6 +361,23 @@ def playback(h):
         return {'test': None, 'native': 'playback failed: %r' % (e,), 'native_output': ''}
     finally:
         shutil.rmtree(sc, ignore_errors=True)
+
+
+
+FRAG_DEPS = {'setup.rs': {'aead.rs', 'kem.rs'}}
+
+
+def fragments_of(name):
+    """the harness fragment that defines `name`, plus the fragments it imports from"""
+    for frag in FRAGMENTS:
+        fp = os.path.join(V, 'kani', frag)
+        if os.path.exists(fp) and re.search(r'\bfn %s\(' % re.escape(name), open(fp).read()):
+            return {frag} | FRAG_DEPS.get(frag, set())
+    return None
+
+
+def is_build_failure(r):
+    return bool(r.get('build_failure')) or bool(r.get('undecided') and re.search(r'error\[E\d+\]|could not compile|Found \d+ compilation errors', r.get('detail') or ''))
 
 
 def run_for_property(pid, tier, seed, extra_names=()):
@@ -284,21 +396,60 @@ def run_for_property(pid, tier, seed, extra_names=()):
         except Exception:
             cache = {}
     todo = [h for h in hs if h['name'] not in cache]
+    pt = PrivateTarget('kani-target')
+    state = {'entered': False}
+    def ktarget():
+        if not state['entered']:
+            pt.__enter__()
+            state['entered'] = True
+        return pt.path
+    try:
+        return _run_for_property(hs, todo, cache, cache_p, ktarget)
+    finally:
+        if state['entered']:
+            pt.__exit__(None, None, None)
+
+
+def _run_for_property(hs, todo, cache, cache_p, ktarget):
     if todo:
         scratch = tempfile.mkdtemp(prefix='hpke_kani_')
         try:
             try:
                 build_scratch(scratch)
+                full_err = None
             except RuntimeError as e:
-                return {'status': 'undecided', 'reason': str(e)}
-            # first harness alone (builds the dependency graph once), the rest in parallel
-            first = run_one(scratch, todo[0])
-            cache[first['name']] = first
-            rest = todo[1:]
-            if rest:
-                with ThreadPoolExecutor(max_workers=6) as ex:
-                    for r in ex.map(lambda h: run_one(scratch, h), rest):
-                        cache[r['name']] = r
+                full_err = str(e)
+            if full_err is None:
+                # first harness alone (builds the dependency graph once), the rest in parallel
+                kt = ktarget()
+                first = run_one(scratch, todo[0], kt)
+                cache[first['name']] = first
+                rest = todo[1:]
+                if rest:
+                    with ThreadPoolExecutor(max_workers=6) as ex:
+                        for r in ex.map(lambda h: run_one(scratch, h, kt), rest):
+                            cache[r['name']] = r
+            else:
+                # e.g. the anchor of a Kani function contract is lost: harnesses of other fragments can still be built alone
+                for h in todo:
+                    cache[h['name']] = {'name': h['name'], 'time_s': 0, 'bound': h['bound'], 'complete': h['bound'] is None, 'rc': None,
+                                        'ok': False, 'undecided': True, 'build_failure': True, 'detail': full_err}
+            # the harness crate is ONE compilation unit: a change of an internal signature used by some OTHER harness
+            # fragment stops every harness from building.  Retry such harnesses with only their own fragment(s) appended
+            for h in todo:
+                r = cache[h['name']]
+                frs = fragments_of(h['name'])
+                if is_build_failure(r) and frs and frs != set(FRAGMENTS):
+                    sc2 = tempfile.mkdtemp(prefix='hpke_kani_iso_')
+                    try:
+                        build_scratch(sc2, only=frs)
+                        r2 = run_one(sc2, h, ktarget())
+                        r2['isolated_build'] = sorted(frs)
+                        cache[h['name']] = r2
+                    except RuntimeError:
+                        pass
+                    finally:
+                        shutil.rmtree(sc2, ignore_errors=True)
             # re-read to merge with concurrent writers
             try:
                 old = json.load(open(cache_p))
@@ -315,7 +466,7 @@ def run_for_property(pid, tier, seed, extra_names=()):
         out.append(r)
         if not r['ok'] and not r.get('undecided'):
             if 'playback' not in r:
-                r['playback'] = playback(h)
+                r['playback'] = playback(h, ktarget(), only=set(r['isolated_build']) if r.get('isolated_build') else None)
                 cache[h['name']]['playback'] = r['playback']
                 try:
                     json.dump(cache, open(cache_p, 'w'))
@@ -333,14 +484,18 @@ def run_for_property(pid, tier, seed, extra_names=()):
 
 if __name__ == '__main__':
     # python3 tools/kani_run.py <harness>...   (debug helper: runs in a kept scratch dir)
+    # python3 tools/kani_run.py --warm         (setup: builds the shared dependency base with one cheap harness)
+    names = sys.argv[1:]
+    if names == ['--warm']:
+        names = ['seq_default_is_zero']
     d = os.environ.get('KANI_SCRATCH') or tempfile.mkdtemp(prefix='hpke_kani_')
     build_scratch(d)
-    names = sys.argv[1:]
-    for h in ALL:
-        if h['name'] in names or not names:
-            r = run_one(d, h)
-            print(json.dumps({k: v for k, v in r.items() if k != 'log'}))
-            if not r['ok']:
-                print(r.get('log', '')[-3000:])
+    with PrivateTarget('kani-target') as pt:
+        for h in ALL:
+            if h['name'] in names or not names:
+                r = run_one(d, h, pt.path)
+                print(json.dumps({k: v for k, v in r.items() if k != 'log'}))
+                if not r['ok']:
+                    print(r.get('log', '')[-3000:])
     if not os.environ.get('KANI_SCRATCH'):
         shutil.rmtree(d, ignore_errors=True)
